@@ -297,6 +297,7 @@ func TestVerifReplayConverge(t *testing.T) {
 		orphaned := false
 		unmanaged := false
 		sbi := mocktarget.NewMockTarget(ctrl)
+		var handed []string // what the last Set was handed: "U path=value" / "D path"
 		sbi.EXPECT().Set(gomock.Any(), gomock.Any()).AnyTimes().DoAndReturn(
 			func(ctx context.Context, source target.TargetSource) (*sdcpb.SetDataResponse, error) {
 				// the device applies the deletes, then the updates of what it is sent (also for rollbacks)
@@ -307,6 +308,13 @@ func TestVerifReplayConverge(t *testing.T) {
 				upds, err := source.ToProtoUpdates(ctx, true)
 				if err != nil {
 					return nil, err
+				}
+				handed = nil
+				for _, del := range dels {
+					handed = append(handed, "D "+utils.ToXPath(del, false))
+				}
+				for _, u := range upds {
+					handed = append(handed, "U "+utils.ToXPath(u.GetPath(), false)+"="+utils.TypedValueToString(u.GetValue()))
 				}
 				for _, del := range dels {
 					prefix := strings.Join(utils.ToStrings(del, false, false), "/")
@@ -414,8 +422,10 @@ func TestVerifReplayConverge(t *testing.T) {
 						fmt.Printf("REPLAY-FAIL fn=%s clause=panic input=%s panic=%v\n", fnLL, in, r)
 					}
 				}()
+				handed = nil
 				rsp, err = d.TransactionSet(ctx, id, tis, nil, time.Minute, false)
 			}()
+			setHanded := append([]string{}, handed...)
 			if failed {
 				break
 			}
@@ -487,6 +497,25 @@ func TestVerifReplayConverge(t *testing.T) {
 				// an accepted, applied transaction is open until it is confirmed
 				fmt.Printf("REPLAY-FAIL fn=%s clause=accepted_run_is_applied input=%s why=the transaction was accepted, yet it cannot be confirmed: %v\n", fnLL, in, err)
 				break
+			}
+			// C03: the response of the run reports what the device was handed (and so does the dry run, which takes the
+			// same way up to the device)
+			{
+				var reported []string
+				for _, dp := range rsp.GetDelete() {
+					reported = append(reported, "D "+utils.ToXPath(dp, false))
+				}
+				for _, u := range rsp.GetUpdate() {
+					reported = append(reported, "U "+utils.ToXPath(u.GetPath(), false)+"="+utils.TypedValueToString(u.GetValue()))
+				}
+				got := setHanded
+				sort.Strings(reported)
+				sort.Strings(got)
+				if strings.Join(reported, "; ") != strings.Join(got, "; ") {
+					for _, fn := range []string{fnLL, "datastore.cacheUpdateToSdcpbUpdate"} {
+						fmt.Printf("REPLAY-FAIL fn=%s clause=the_response_reports_what_goes_to_the_device input=%s why=the response reports [%s], the device was handed [%s]\n", fn, in, strings.Join(reported, "; "), strings.Join(got, "; "))
+					}
+				}
 			}
 			// C09
 			if unchanged && (len(rsp.GetUpdate()) > 0 || len(rsp.GetDelete()) > 0) {
@@ -635,4 +664,5 @@ func TestVerifReplayConverge(t *testing.T) {
 	fmt.Printf("REPLAY-CASES fn=%s n=%d\n", fnG, n)
 	fmt.Printf("REPLAY-CASES fn=%s n=%d\n", "(*tree.sharedEntryAttributes).populateChoiceCaseResolvers", n)
 	fmt.Printf("REPLAY-CASES fn=%s n=%d\n", "(*tree.LeafVariants).Add", n)
+	fmt.Printf("REPLAY-CASES fn=%s n=%d\n", "datastore.cacheUpdateToSdcpbUpdate", n)
 }
